@@ -67,10 +67,16 @@ class View:
                 return True
         return False
 
-    def all_node_cps(self):
+    def all_node_cps(self, with_subs=True):
+        """(owner node, interface id) for every interface connect_interface accepts: ports of the services of a node
+        or of its components (dedicated, shared, facility, trunk ..., ALSO ServicePorts added to a node-level / switch
+        service) and, with_subs, the sub-interfaces under them"""
         out = []
         for n in self.net_nodes() + self.facilities():
-            out += [(n, cp) for cp in self.node_cps(n[0])]
+            for cp in self.node_cps(n[0]):
+                out.append((n, cp))
+                if with_subs:
+                    out += [(n, c) for c in self.nb(cp, 'connects', 'ConnectionPoint') if self.nodes[c][3] == 'SubInterface']
         return out
 
     def service_ports(self):
@@ -238,7 +244,8 @@ class HistGen:
         r = self.rng
         ref, sv = r.choice(self.svc_refs(v))
         s = {'op': 'add_interface', 'svc': ref, 'name': self.fresh_name('p'),
-             'itype': r.choice(['TrunkPort', 'AccessPort', 'DedicatedPort', 'FacilityPort']), 'node_id': self.nid('p')}
+             'itype': r.choice(['TrunkPort', 'AccessPort', 'DedicatedPort', 'FacilityPort', 'ServicePort', 'ServicePort']),
+             'node_id': self.nid('p')}
         s.update(over)
         return s
 
@@ -599,8 +606,8 @@ class HistGen:
 
     def f_add_child(self, v, valid):
         r = self.rng
-        ded = [(n, cp) for (n, cp) in v.all_node_cps() if v.nodes[cp][3] == 'DedicatedPort']
-        other = [(n, cp) for (n, cp) in v.all_node_cps() if v.nodes[cp][3] != 'DedicatedPort']
+        ded = [(n, cp) for (n, cp) in v.all_node_cps(False) if v.nodes[cp][3] == 'DedicatedPort']
+        other = [(n, cp) for (n, cp) in v.all_node_cps(False) if v.nodes[cp][3] != 'DedicatedPort']
         s = {'op': 'add_child', 'name': self.fresh_name('ch'), 'node_id': self.nid('ch'), 'vlan': str(100 + self.k)}
         withkids = [(n, cp) for (n, cp) in ded if v.nb(cp, 'connects', 'ConnectionPoint')]
         if valid:
@@ -767,10 +774,13 @@ class HistGen:
             s['if_ids'] = [self.nid('ci'), self.nid('ci')]
             s['if_labels'] = 2
             if ft == 'dup_child_ns_id':
-                s['ns_id'] = r.choice(list(v.nodes))
+                # preferably the id of an element of ANOTHER class than the one the id is meant for
+                pool = [i for i, n in v.nodes.items() if n[1] != 'NetworkService'] if r.random() < 0.7 else list(v.nodes)
+                s['ns_id'] = r.choice(pool or list(v.nodes))
             elif ft == 'dup_child_if_id':
                 s['pos'] = r.randrange(2)
-                s['if_ids'][s['pos']] = r.choice(list(v.nodes))
+                pool = [i for i, n in v.nodes.items() if n[1] != 'ConnectionPoint'] if r.random() < 0.7 else list(v.nodes)
+                s['if_ids'][s['pos']] = r.choice(pool or list(v.nodes))
             elif ft == 'same_child_if_ids':
                 s['if_ids'][1] = s['if_ids'][0]
             else:
@@ -808,6 +818,14 @@ class HistGen:
         s = self.s_add_service(v, fault=ft)
         if s['ifs'] is None:
             s['ifs'] = []
+        # interfaces of every connectable kind in front of the failing one: one free interface per type, if there
+        if ft.startswith('if_') and r.random() < 0.6:
+            by_type = {}
+            for (n0, cp) in free:
+                by_type.setdefault(v.nodes[cp][3], cp)
+            pre = [['cp', c] for t0, c in sorted(by_type.items()) if not (s['nstype'] == 'L2PTP' and t0 == 'SharedPort')]
+            r.shuffle(pre)
+            s['ifs'] = pre + [x for x in s['ifs'] if x not in pre][:1]
         if ft == 'bad_prop':
             s['kw'], s['pos'] = self.kw(bad=True)
         elif ft == 'bad_name':
@@ -1114,6 +1132,9 @@ class HistGen:
             choices += ['peer'] * 2
         if r.random() < 0.25:
             choices += ['add_child'] * 2 + ['connect', 'rename']
+        node_svcs = [(ref, sv) for (ref, sv) in self.svc_refs(v) if ref[0] == 'node']
+        if node_svcs and r.random() < 0.5:
+            choices += ['node_service_port'] * 3
         c = r.choice(choices)
         if c == 'add_node':
             return [self.s_add_node()]
@@ -1140,6 +1161,10 @@ class HistGen:
         if c == 'peer':
             sp = self.f_peer(v, True)
             return [sp] if sp else []
+        if c == 'node_service_port':
+            ref, sv = r.choice(node_svcs)
+            return [{'op': 'add_interface', 'svc': ref, 'name': self.fresh_name('sp'), 'itype': 'ServicePort',
+                     'node_id': self.nid('sp')}]
         if c in ('add_child', 'connect', 'rename'):
             sp = getattr(self, 'f_' + c)(v, True)
             return [sp] if sp else []
